@@ -21,7 +21,7 @@ const pvT = "types.(*FilePV)."
 func C04(p *ir.Program, r *report.R) {
 	c := C{p, r}
 	r.Floor = 55
-	r.Explain = "Decided: (1) FilePV.checkHRS interpreted exhaustively over the 108 orderings of (LastHeight,height) x (LastRound,round) x (LastStep,step) x nil-ness of LastSignBytes/LastSignature against the double-sign specification table; (2) in signVote/signProposal the private key signs only after checkHRS returned (false,nil) for the payload's own height/round/step, and on the same-HRS path only the stored signature can be released, under byte equality or the timestamp-only helper; (3) persist-before-release: every path from PrivKey.Sign to the store into vote/proposal.Signature passes saveSigned, saveSigned writes all five Last* fields of the persisted record from its parameters and reaches WriteFileAtomic, whose error is fatal; WriteFileAtomic opens with O_SYNC and writes, closes, renames in that order; (4) who may call PrivKey.Sign on the validator key and who may write the Last* record; (5) the record's fields are exported with json tags and copied by Copy; the node signs votes/proposals only through SignVote/SignProposal. NOT decided: that the file system honours O_SYNC+rename; the JSON round trip inside the timestamp-only helpers."
+	r.Explain = "Decided: (1) FilePV.checkHRS interpreted exhaustively over the 108 orderings of (LastHeight,height) x (LastRound,round) x (LastStep,step) x nil-ness of LastSignBytes/LastSignature against the double-sign specification table; (2) in signVote/signProposal the private key signs only after checkHRS returned (false,nil) for the payload's own height/round/step, and on the same-HRS path only the stored signature can be released, under byte equality or the timestamp-only helper; (3) persist-before-release: every path from PrivKey.Sign to the store into vote/proposal.Signature passes saveSigned, saveSigned writes all five Last* fields of the persisted record from its parameters and reaches WriteFileAtomic, whose error is fatal; WriteFileAtomic opens with O_SYNC and writes, closes, renames in that order; (4) who may call PrivKey.Sign on the validator key and who may write the Last* record; (5) the record's fields are exported with json tags and copied by Copy; the node signs votes/proposals only through SignVote/SignProposal. Rounds 4-5: checkHRS compared as a decision table by an interpreter that refuses sign-changing conversions; the saved record carries every field (who-may-write + field coverage). NOT decided: that the file system honours O_SYNC+rename; the JSON round trip inside the timestamp-only helpers."
 	r.Trusted = []string{"os.OpenFile/Write/Rename durability semantics", "crypto.PrivKey.Sign", "libs/ser JSON"}
 
 	// ---- (1) checkHRS decision table ----------------------------------------
